@@ -143,7 +143,7 @@ PROPS = {
     },
     "C08": {
         "level": "other",
-        "rules": [("SL", 7, None), ("CP", 3, has("smooth_helper")), ("VO", 2, has("var_at_level"))],
+        "rules": [("SL", 7, None), ("CP", 2, has("smooth_helper")), ("VO", 2, has("var_at_level"))],
         "explanation": "Level bookkeeping of smooth_helper: every node built is labelled with var_at_level(current) or with a "
                        "node variable that a dominating test equates with it, children recurse one level down, smooth starts "
                        "at level 0 (SL); the complemented arm is sign-coherent (CP); callers count on smooth(_, num_vars) "
